@@ -302,7 +302,7 @@ class Puppet:
         elif z == 4 and self.opts.get("crash"):
             # crash at a persist point of the next real operation: applied below by wrapping
             self.pending_crash = (rng.below(3), rng.chance(1, 2))
-        elif z == 5 and self.opts.get("crash"):
+        elif z == 5 and (self.opts.get("crash") or self.opts.get("restarts")):
             self.note("restart")
             self.ops.append({"t": "restart"})
         elif z == 6 and self.blocks:
